@@ -205,6 +205,32 @@ def codec_layer(ck, n_cases):
         for name, got, want in checks:
             if got != want:
                 ck.fail(f"header field {name} not reproduced: wrote {want!r:.80} read {got!r:.80}", dict(inp, field=name))
+        # ---- the same header through a writer session (no points): everything that is not a statistic of the points
+        # or the EVLR pointer is carried to the file
+        if not (f["fmt"] & 0x80) and ck.rng.random() < 0.5:
+            ck.count("header_through_writer")
+            try:
+                from laspy.laswriter import LasWriter
+                wb = io.BytesIO()
+                LasWriter(wb, h, closefd=False).close()
+                hw_ = LasHeader.read_from(io.BytesIO(wb.getvalue()))
+                kept = [
+                    ("file_source_id", hw_.file_source_id, f["fsid"]), ("global_encoding", hw_.global_encoding.value, f["ge"]),
+                    ("uuid", hw_.uuid.bytes_le, f["guid"]), ("version", (hw_.version.major, hw_.version.minor), (1, f["vmin"])),
+                    ("system_identifier", as_bytes(hw_.system_identifier), f["sys"]), ("generating_software", as_bytes(hw_.generating_software), f["soft"]),
+                    ("creation_date", hw_.creation_date, f["date"]),
+                    ("scales", [dbits(float(x)) for x in hw_.scales], f["dbl"][0:3]), ("offsets", [dbits(float(x)) for x in hw_.offsets], f["dbl"][3:6]),
+                    ("waveform", hw_.start_of_waveform_data_packet_record, f["wave"]), ("extra_header_bytes", hw_.extra_header_bytes, f["xh"]),
+                    ("extra_vlr_bytes", hw_.extra_vlr_bytes, f["xv"]), ("offset", hw_.offset_to_point_data, len(data)),
+                    ("vlrs", [c08.canon(v) for v in hw_.vlrs], [(u.encode(), r, d.encode(), p) for u, r, d, p in f["vlrs"]]),
+                    ("format", hw_.point_format.id, f["fmt"] & 0x3F), ("point_count", hw_.point_count, 0),
+                ]
+                for name, got, want in kept:
+                    if got != want:
+                        ck.fail(f"header field {name} not carried through a writer session: header had {want!r:.80}, the file has {got!r:.80}",
+                                dict(inp, field=name, through="LasWriter"))
+            except Exception as e:
+                ck.fail(f"a writer session on a legal header raised {type(e).__name__}: {e}", inp)
         # ---- in-place rewrite with other statistics keeps the size (same-size guard must not fire)
         h.point_count = ck.rng.randrange(2**32)
         h.maxs = np.array([1.5, 2.5, 3.5])
@@ -410,6 +436,18 @@ def compat_layer(ck):
                 h.set_version_and_point_format(Version(1, v), PointFormat(f))
                 return h
             record(f"hdr both {v} {f}", run(both), f"set_version_and_point_format(1.{v}, {f})")
+            # a refused request leaves the header as it was (still a compatible pair), from every legal starting pair
+            for cv in (1, 2, 3, 4):
+                for cf in (SPEC_COMPAT[cv][0], SPEC_COMPAT[cv][-1]):
+                    hh = LasHeader(version=f"1.{cv}", point_format=cf)
+                    try:
+                        hh.set_version_and_point_format(Version(1, v), PointFormat(f))
+                        continue
+                    except Exception:
+                        pass
+                    if (hh.version.minor, hh.point_format.id) != (cv, cf):
+                        ck.fail(f"header (1.{cv}, format {cf}): the refused set_version_and_point_format(1.{v}, {f}) left it as "
+                                f"(1.{hh.version.minor}, format {hh.point_format.id})", {"kind": "compat", "call": f"both {v} {f} from {cv} {cf}", "finding_key": "C07:compat"})
             if f <= 10 and 1 <= v <= 4:
                 def writer():
                     from laspy.laswriter import LasWriter
